@@ -124,6 +124,18 @@ def reader_cases(fn):
     cur = []
     def finish(labels, stmts):
         mem, nex, err = set(), 0, False
+        extracted = set()
+        uncond = set()
+        def walk_uncond(n, guarded):
+            k_ = n.get("kind")
+            if k_ in ("BinaryOperator", "CompoundAssignOperator") and n.get("opcode") == "=" and not guarded:
+                m_ = this_member(n["inner"][0])
+                if m_: uncond.add(m_)
+            for c_ in n.get("inner", []) or []:
+                if isinstance(c_, dict):
+                    walk_uncond(c_, guarded or k_ in ("IfStmt", "ConditionalOperator", "ForStmt", "WhileStmt"))
+        for s0 in stmts:
+            walk_uncond(s0, False)
         ntok = [0]; optional = [False]
         def in_loop(root, node):
             # is `node` inside a loop statement below root?
@@ -148,7 +160,7 @@ def reader_cases(fn):
                         if not in_loop(s, x):
                             ntok[0] += 1
                         m = this_member(x["inner"][2]) if len(x["inner"]) > 2 else None
-                        if m: mem.add(m)
+                        if m: mem.add(m); extracted.add(m)
                     elif nm == "operator=" and len(x["inner"]) > 1:
                         m = this_member(x["inner"][1])
                         if m: mem.add(m)
@@ -175,7 +187,7 @@ def reader_cases(fn):
                             if re.search(r"obsolete|Unknown input|not used|no longer", txt, re.I):
                                 err = True
         for lb in labels:
-            cases[lb] = {"members": mem, "extractions": nex, "error": err, "tokens": 0 if optional[0] else ntok[0]}
+            cases[lb] = {"members": mem, "extractions": nex, "error": err, "tokens": 0 if optional[0] else ntok[0], "extracted": extracted, "uncond": uncond}
     labels, stmts = [], []
     def add(node, lbls):
         k = node.get("kind")
@@ -248,8 +260,29 @@ def unit_key_symmetry(rel, cls, twin=False):
             same = bool(wm & c["members"]) or not c["members"]
             if same:
                 r.add(oname + ".same_member", DISCHARGED, "ast-scan", 0, "written %s, case stores %s" % (sorted(wm), sorted(c["members"])))
+                # the value on the line is extracted INTO a member the writer printed after this key (not into a neighbour that merely
+                # also appears in the case, e.g. in its error arm)
+                exm = c.get("extracted") or set()
+                if exm and len(wm) == 1:
+                    r.add(oname + ".value_extracted_into_the_member_written", DISCHARGED if (wm & exm) else FAILED, "ast-scan", 0, "written %s, extracted into %s" % (sorted(wm), sorted(exm)))
             else:
                 r.add(oname + ".same_member", FAILED, "ast-scan", 0, "the line prints %s but option '%s' stores into %s" % (sorted(wm), opt, sorted(c["members"])))
+    # reading one key does not unconditionally overwrite a member that the writer prints under ANOTHER key (else the order of the keys in the
+    # dump decides what survives the read-back)
+    written = {}
+    for key, mems, nvals, heading, line in wk:
+        for m_ in mems:
+            if m_:
+                written.setdefault(m_, key)
+    for key, mems, nvals, heading, line in wk:
+        idx = resolve(key, vopts)
+        c = cases.get(idx) if idx >= 0 else None
+        if not c:
+            continue
+        own = {m_ for m_ in mems if m_}
+        foreign = sorted(m_ for m_ in c.get("uncond", ()) if m_ in written and m_ not in own and written[m_] != key and not m_.endswith("_defined"))
+        if own:
+            r.add("key[-%s].does_not_overwrite_a_member_dumped_under_another_key" % key, DISCHARGED if not foreign else FAILED, "ast-scan", 0, "unconditional stores to %s" % foreign if foreign else "")
     r.add("reach.keys_found", DISCHARGED if n >= 1 else UNDECIDED, "ast-scan", 0, "%d keys written, %d options, %d cases" % (n, len(vopts), len(cases)), kind="vacuity")
     r.assumptions += ["the reader resolves a key as CParser::find_option does: lower-case, first option of which the key is a prefix",
                       "members are matched by name; sub-objects (totals.dump_raw / read_raw) by the member they are called on"]
